@@ -52,6 +52,9 @@ def Raise(e): return nd("raise", kids=[e])
 def Catch(var, cls, block): return nd("catch", s=var, s2=cls or "", kids=[block])
 def Try(block, catches): return nd("try", kids=[block] + catches)
 def Print(*args): return ExprSt(Call(Var("print"), list(args)))
+def Export(decl): return nd("export", kids=[decl])
+def ImportWhole(mod, alias=None): return nd("import", s=mod, s2="as" if alias else "whole", fields=[alias or mod])
+def ImportSyms(mod, pairs): return nd("import", s=mod, s2="syms", fields=[x for p in pairs for x in p])
 
 
 def self_fields(init_fn):
@@ -311,6 +314,18 @@ class Printer:
                 head = f" catch {c['s']}" + (f": {c['s2']}" if c["s2"] else "")
                 self.block(c["kids"][0], head)
             self.nl()
+        elif k == "export":
+            self.emit("export ")
+            self.stmt(n["kids"][0])
+        elif k == "import":
+            if n["s2"] == "whole":
+                self.line(f"import self.{n['s']};")
+            elif n["s2"] == "as":
+                self.line(f"import self.{n['s']} as {n['fields'][0]};")
+            else:
+                f = n["fields"]
+                items = ", ".join(f[i] if f[i] == f[i + 1] else f"{f[i]} as {f[i + 1]}" for i in range(0, len(f), 2))
+                self.line(f"import self.{n['s']}:{{{items}}};")
         elif k in ("module", "session"):
             for st in n["kids"]:
                 self.stmt(st)
@@ -326,8 +341,25 @@ def to_source(root, layout="canon"):
     return "\n".join(p.lines) + "\n", p.line_of
 
 
-def case_record(cid, root):
-    nodes, r = flatten(root)
+def multi_case_record(cid, main, modules):
+    """main: Module AST; modules: {name: Module AST}; one node table, one root per file"""
+    nodes = []
+
+    def go(n):
+        kids = [go(c) for c in n["kids"]]
+        nodes.append({"k": n["k"], "s": n["s"], "s2": n["s2"], "n": n["n"], "kids": kids, "cp": n["cp"], "fields": n["fields"]})
+        n["_id"] = len(nodes)
+        return len(nodes)
+
+    r = go(main)
+    mods = {name: (0 if isinstance(ast, str) else go(ast)) for name, ast in modules.items()}
+    rec = case_record(cid, main, _nodes=(nodes, r))
+    rec["mods"] = mods
+    return rec
+
+
+def case_record(cid, root, _nodes=None):
+    nodes, r = _nodes if _nodes else flatten(root)
     names = {"script": [ord(c) for c in "script"], "lambda": [ord(c) for c in "lambda"], "[]": [91, 93], "[]=": [91, 93, 61]}
     for cname in ("Error", "RuntimeError", "TypeError", "IndexError", "PropertyError", "ValueError", "KeyError",
                   "ImportError", "ExportError", "SyntaxError", "FormatError", "ChannelError", "MethodNotFoundError"):
@@ -335,7 +367,7 @@ def case_record(cid, root):
     for n in nodes:
         if n["k"] in ("fn", "lambda", "class") and n["s"]:
             names[n["s"]] = [ord(c) for c in n["s"]]
-    return {"id": cid, "nodes": nodes, "root": r, "names": names}
+    return {"id": cid, "nodes": nodes, "root": r, "names": names, "mods": {}}
 
 
 def decode_out(out):
